@@ -120,3 +120,8 @@ def run(ctx):
         "wrong-typed user, malformed map; other payloads are C07/C08's business",
         "streams are in-process harness streams; the Authenticator is harness code wrapping bus.Yes / bus.No / bus.Dictionary or a script",
     ]
+
+    # the authentication negotiation's own state machine and values on both sides (AuthNegotiation.tla,
+    # design-notes/EXT-authneg.md): what concerns the gate is a verdict, the client side an observation
+    import ext_authneg
+    ext_authneg.run(ctx)
